@@ -411,7 +411,7 @@ pub fn main(twins: &'static [Twin]) {
             // nested spawn macros: inherited thread names `<caller>_join_<i>_join_<j>` (innermost branches log their thread name)
             "C08" => has("nest") && t.tags.contains("spawn"),
             // caller variables named like `let`-named branches: every user expression keeps its call-site meaning
-            "C12" | "C13" => has("scope"),
+            "C04" | "C12" | "C13" => has("scope"),
             _ => true,
         };
         if !want {
@@ -518,7 +518,7 @@ pub fn main(twins: &'static [Twin]) {
             let nt = match prop.as_str() {
                 "C17" | "C19" | "C08" => true,
                 "C02" => ncalls >= 1,
-                "C12" | "C13" => true,
+                "C04" | "C12" | "C13" => true,
                 "C11" => ml.iter().filter(|e| e.k == K::Cap).count() >= 1,
                 _ => ncalls >= 1,
             };
